@@ -72,9 +72,9 @@ CLAIMED = {
     "C06": ("Coq theorems: a capture requests the whole desktop as last announced (ServerInit or the latest DesktopSize rectangle, which "
             "updates the geometry); model of commit/waiter run against the real client on sessions interleaving captures with unsolicited "
             "updates, desktop-size changes and chunked updates; judged: request geometry, exactly one image per capture, saved right after "
-            "the first commit following the request, PNG pixels == reference canvas / its crop; chunk invariance by C01 "
-            "(save-only-at-commit trace theorem PARTIAL)",
-            "sequential captures; Pillow PNG codec trusted", "Coq proof (partial) + differential correspondence with an independent reference canvas"),
+            "the first commit following the request, PNG pixels == reference canvas / its crop; chunk invariance by C01; "
+            "trace theorem: for every run on any bytes an image is saved only immediately after a commit, at most once per waiting capture",
+            "sequential / chained captures; Pillow PNG codec trusted", "Coq proof (handler case analysis + induction over the expect loop) + differential correspondence with an independent reference canvas"),
     "C10": ("Coq theorems about an executable model of build_command_list + shlex: every well-formed command sequence (any alias, any "
             "arguments) compiles to exactly its operations (induction over the sequence), a script file name is equivalent to its "
             "tokenised contents, a word that is neither command nor file is rejected whatever follows, unsupported capture extensions are "
